@@ -20,9 +20,9 @@ FAMILIES = {
 
     "kv": {
         "family": "kv",
-        "coq_modules": ["Json", "Crc", "Hlc", "Kv", "Store", "Corr"],
+        "coq_modules": ["Json", "Crc", "Hlc", "Kv", "Store", "Trace", "Corr"],
         "in_type": "scase", "obs_type": "list ostep",
-        "corr": "kv_corr_ok", "chk": "kv_chk_ok", "model": "kv_model", "explain": "kv_explain",
+        "corr": "kv_corr_ok", "chk": "kv_chk_ok", "model": "kv_model", "explain": "kv_explain", "chk_explain": "kv_chk_explain",
         "n": {"quick": 160, "thorough": 4000},
         "shard": 10, "procs": 8,
     },
